@@ -118,7 +118,8 @@ TraceNext ==
        \/ StepForgeBegin \/ Plain("ForgeCommit", ForgeCommit) \/ Plain("Enqueue", Enqueue)
        \/ Plain("ForgeForeign", ForgeForeign)
        \/ StepTakePublished \/ StepTakeImported
-       \/ Plain("PipelineProcess", PipelineProcess) \/ Plain("SkipAck", SkipAck) \/ Plain("AckRead", AckRead)
+       \/ Plain("PipelineProcess", PipelineProcess) \/ Plain("SkipAck", SkipAck)
+       \/ Plain("AckEnter", AckEnter) \/ Plain("AckRead", AckRead) \/ Plain("AppAckRead", AppAckRead)
        \/ Plain("AckWriteTx", AckWriteTx) \/ Plain("AckCommit", AckCommit) \/ Plain("Deliver", Deliver)
        \/ Plain("ReplayEnd", ReplayEnd)
        \/ StepAppRecv \/ StepAppAckBegin
